@@ -754,3 +754,12 @@ fire('gr8a-import-search-narrow-table', ['C14'], ['GR-8a'], 'iter_imports scans 
      (PYTREE, "_RETURN_STMT_CONTAINERS = set(['suite', 'simple_stmt']) | _FLOW_CONTAINERS\n", "_RETURN_STMT_CONTAINERS = set(['suite', 'simple_stmt']) | _FLOW_CONTAINERS\n_IMPORT_CONTAINERS = set(['suite', 'simple_stmt', 'if_stmt', 'while_stmt', 'for_stmt', 'try_stmt', 'with_stmt'])\n"))
 
 VARIANTS = [v for v in VARIANTS if v is not None]
+
+# round 13: F22 / F23
+fire('tc1-pep8-eq-any-leaf', ['C20'], ['TC-1'], "the E711/E712 check takes any leaf spelled '==' / '!=' for the operator (F22 reverted)",
+     (PEP8, "        elif typ == 'operator' and leaf.value in ('==', '!='):", "        elif leaf.value in ('==', '!='):"))
+fire('norm14-walk-past-root', ['C20'], ['NORM-14'], 'the dedented-comment walk up the indentation stack does not stop at the root (F23 reverted)',
+     (PEP8, "                    while n is not None:\n                        if n.indentation is None or len(indentation)", "                    while True:\n                        if n.indentation is None or len(indentation)"))
+silent('s-norm14-test-after-step', ['C20'], 'the walk tests for None right after the step instead of in the loop head',
+       (PEP8, "                    while n is not None:\n                        if n.indentation is None or len(indentation)", "                    while True:\n                        if n.indentation is None or len(indentation)"),
+       (PEP8, "                        if n == node:\n                            break\n                        n = n.parent\n", "                        if n == node:\n                            break\n                        n = n.parent\n                        if n is None:\n                            break\n"))
